@@ -41,3 +41,61 @@ Print Assumptions C06_simulation_multiplicity.
 Theorem C06_simulation_version_check : forall c tag v, sim (check_block_version_lower c tag v).
 Proof. exact sim_check_block_version_lower. Qed.
 Print Assumptions C06_simulation_version_check.
+
+(** The whole generic parser (every function of Gram/Parser.v up to parse_file, for every grammar, including the sites
+    that catch an error and restore the cursor).  [csim m]: m never changes the flag and only appends to the log; in
+    strict mode it appends deprecation notices only; and a non-strict run that appends nothing but deprecation notices
+    is, step for step, the strict run. *)
+From A2L Require Import A2ml.Types Gram.Parser Proofs.StrictWholeProofs Gen.SpecShipped.
+
+Theorem C06_whole_parser_is_simulated : forall S, csim (parse_file S).
+Proof. exact csim_parse_file. Qed.
+Print Assumptions C06_whole_parser_is_simulated.
+
+(* "if non-strict loading succeeds without warnings, strict loading succeeds with an equal model and no warnings" - and
+   more: whatever the outcome, if the non-strict load reports nothing but deprecation notices, the strict load has the
+   same outcome, the same warnings and the same final state *)
+Theorem C06_clean_nonstrict_load_is_the_strict_load : forall S toks nfiles ftab specs oracle r s',
+  parse_file S (init_state_a2ml toks false nfiles ftab specs oracle) = (r, s') ->
+  forallb deprecation (ps_log s') = true ->
+  parse_file S (init_state_a2ml toks true nfiles ftab specs oracle) = (r, set_strict true s').
+Proof. exact lenient_run_without_problems_is_the_strict_run. Qed.
+Print Assumptions C06_clean_nonstrict_load_is_the_strict_load.
+
+(* "strict loading fails => non-strict loading reports at least one problem other than a deprecation notice" (or fails
+   with the very same error) *)
+Theorem C06_strict_failure_is_reported_by_nonstrict_load : forall S toks nfiles ftab specs oracle d s1 r s',
+  parse_file S (init_state_a2ml toks true nfiles ftab specs oracle) = (RErr d, s1) ->
+  parse_file S (init_state_a2ml toks false nfiles ftab specs oracle) = (r, s') ->
+  r = RErr d \/ existsb (fun x => negb (deprecation x)) (ps_log s') = true.
+Proof. exact strict_failure_is_reported. Qed.
+Print Assumptions C06_strict_failure_is_reported_by_nonstrict_load.
+
+(* a strict load never returns a warning other than a deprecation notice *)
+Theorem C06_strict_load_reports_only_deprecations : forall S toks nfiles ftab specs oracle r s',
+  parse_file S (init_state_a2ml toks true nfiles ftab specs oracle) = (r, s') ->
+  forallb deprecation (ps_log s') = true.
+Proof. exact strict_run_reports_only_deprecations. Qed.
+Print Assumptions C06_strict_load_reports_only_deprecations.
+
+(* the premises are met by real documents of the shipped grammar: a clean one, one with a deprecated enumerator
+   (deprecation notice in both modes, same model), one with an unknown element (strict error, non-strict warning) *)
+Definition demo_run (text : string) (strict : bool) : option (nat * list string) :=
+  match tokenize_core 0 (list_ascii_of_string text) with
+  | TOk toks =>
+      let '(r, s) := parse_file spec_shipped (init_state_a2ml toks strict 1 [] [] []) in
+      Some (match r with ROk _ => 0 | RErr _ => 1 | RPanic _ => 2 | RFuel => 3 end, map d_variant (ps_log s))
+  | _ => None
+  end.
+Definition doc_clean : string :=
+  "ASAP2_VERSION 1 71 /begin PROJECT p """" /begin MODULE m """" /end MODULE /end PROJECT".
+Definition doc_deprecated : string :=
+  "ASAP2_VERSION 1 71 /begin PROJECT p """" /begin MODULE m """" /begin MOD_COMMON """" BYTE_ORDER LITTLE_ENDIAN /end MOD_COMMON /end MODULE /end PROJECT".
+Definition doc_unknown : string :=
+  "ASAP2_VERSION 1 71 /begin PROJECT p """" /begin MODULE m """" /begin NO_SUCH_BLOCK 1 /end NO_SUCH_BLOCK /end MODULE /end PROJECT".
+Example C06_premises_are_met :
+  demo_run doc_clean false = Some (0, []) /\ demo_run doc_clean true = Some (0, []) /\
+  demo_run doc_deprecated false = Some (0, ["EnumRefDeprecated"%string]) /\
+  demo_run doc_deprecated true = Some (0, ["EnumRefDeprecated"%string]) /\
+  demo_run doc_unknown false = Some (0, ["UnknownSubBlock"%string]) /\ demo_run doc_unknown true = Some (1, []).
+Proof. vm_compute. repeat split. Qed.
